@@ -26,6 +26,14 @@ def replay_form(p: dict) -> int:
         from .exprcheck import replay_expr
 
         return replay_expr(p)
+    if p.get("kind") == "numbering":
+        from .numbering import numbering_case
+
+        r = numbering_case(p["name"], {"tier": "quick"})
+        for v in r["violations"][:3]:
+            print(v["key"], "::", v["what"])
+        print("REPRODUCED" if r["violations"] else "not reproduced on this tree")
+        return 1 if r["violations"] else 0
     if p.get("kind") == "bounds":
         from .kernelprops import replay_bounds
 
